@@ -3389,7 +3389,25 @@ class SchemaValidator:
                         )
 
     def _detect_circular_dependencies(self):
+        # checkpoints currently being explored (guards against checkpoints that,
+        # directly or indirectly, reference themselves)
+        checkpoint_stack = []
+
         def _explore_checkpoint_recursive(checkpoint, visited, dependency_path):
+            if any(checkpoint is c for c in checkpoint_stack):
+                return [
+                    f"Circular checkpoint reference detected ({json.dumps(checkpoint['alias'] if 'alias' in checkpoint else None)})"
+                ]
+
+            checkpoint_stack.append(checkpoint)
+            try:
+                return _explore_checkpoint_dependencies(
+                    checkpoint, visited, dependency_path
+                )
+            finally:
+                checkpoint_stack.pop()
+
+        def _explore_checkpoint_dependencies(checkpoint, visited, dependency_path):
             for dependency in checkpoint["dependencies"]:
                 # Could be a Dependency or a CheckpointReference
                 if "compare" in dependency:
